@@ -9,6 +9,7 @@ R6 one message, one write (reply_ok / do_reply_error / FuseDevWriter::commit)
 R7 reply frame fields (len, unique, error)
 R8 every appending writer method is dominated by a refusing space check (shared with C04)
 R9 the pre-dispatch id remap cannot fail silently
+R3-layout (shared with C12.R3) the INIT compat replies cut the slice at the size of the array they fill (the reviewed `unwrap()`s cannot fail); R3-split (shared with C04) the header/body split of a reply buffer cuts inside the buffer that holds the split point
 """
 import json
 import os
@@ -693,3 +694,4 @@ META = {
             "absence of failure; entries of tables/request_path.json were confirmed by reading. Not decided: UB inside dependencies, "
             "kernel delivery.",
 }
+META["text"] += " " + 'Also: the INIT compat replies cut their slice at the array size (C12.R3), the header/body split cuts inside the buffer holding the split point (C04).'
